@@ -240,6 +240,14 @@ impl Topo {
 // ------------------------------------------------------------------------------------------------
 // Backends: the two entry points
 
+/// Local receipt time of a market message: a monotone receive clock that is later than every
+/// exchange timestamp of the workload (a late message is received late, whatever its exchange
+/// time says) - the rule of the property is about EXCHANGE time only.
+fn next_receive_time() -> chrono::DateTime<chrono::Utc> {
+    static RECV: std::sync::atomic::AtomicI64 = std::sync::atomic::AtomicI64::new(0);
+    t(1_000_000 + RECV.fetch_add(1, std::sync::atomic::Ordering::Relaxed))
+}
+
 enum Backend {
     State(Box<fixtures::DefState>),
     Engine(Box<fixtures::TestEngine>),
@@ -297,14 +305,14 @@ impl Backend {
             }),
             Step::L1 { i, m } => self.market(MarketEvent {
                 time_exchange: t(m.t),
-                time_received: t(m.t),
+                time_received: next_receive_time(),
                 exchange: topo.exch_id[topo.instr_exch[*i]],
                 instrument: InstrumentIndex(*i),
                 kind: DataKind::OrderBookL1(l1_val(*m)),
             }),
             Step::Trade { i, m } => self.market(MarketEvent {
                 time_exchange: t(m.t),
-                time_received: t(m.t),
+                time_received: next_receive_time(),
                 exchange: topo.exch_id[topo.instr_exch[*i]],
                 instrument: InstrumentIndex(*i),
                 kind: DataKind::Trade(PublicTrade { id: format!("pt{}-{}", m.t, m.v), price: trade_px(*m), amount: 1.0, side: Side::Buy }),
